@@ -13,6 +13,8 @@ fn rule(target: &str) -> String {
         "client_random" => "coverage-guided (libFuzzer, ASan): bytes -> extract_client_random on growing prefixes: any Found equals bytes 11..43 and stays Found",
         "h1_heads" => "coverage-guided (libFuzzer, ASan): bytes -> HTTP/1.1 request and response head decoders: head length within input, no partial head beyond 1024 bytes",
         "socks5_server_bytes" => "coverage-guided (libFuzzer, ASan): bytes as a SOCKS5 server's replies -> the real client dialogue ends with a classified result; success only after an offered method",
+        "icmp_mux_stream" => "coverage-guided (libFuzzer, ASan): bytes -> (up to 5 cut positions, stream of 7.3 records) -> real ICMP-mux request decoder vs the reference decoder; each request's serialised echo has the requested id/seq/size and a valid checksum",
+        "udp_roundtrip" => "coverage-guided (libFuzzer, ASan): bytes -> datagrams: real 6.4 encoder == reference encoder; their 6.3 encoding under a fuzzer-chosen segmentation -> real decoder returns exactly them",
         _ => "coverage-guided fuzz target",
     }
     .to_string()
@@ -33,6 +35,8 @@ pub fn run_target(prop: &str, target: &str, runs: u64, seed: u64) -> (SuiteRepor
     }
     let artifacts = format!("{}/target/fuzz-artifacts/{}-{}/", VERIF_ROOT, target, std::process::id());
     let _ = std::fs::create_dir_all(&artifacts);
+    // a run of this target allocates and checksums up to 8 x 64 KiB: fewer runs for the same wall time
+    let runs = if target == "icmp_mux_stream" { runs / 8 } else { runs };
     let out = Command::new("cargo")
         .current_dir(FUZZ_DIR)
         .env("RUST_BACKTRACE", "0")
